@@ -64,6 +64,8 @@ def gen_desc(rng):
                     st = {'op': op, 'seed': rng.randrange(1 << 16)}
                     if op == 'local_shuffle':
                         st['bs'] = rng.randrange(1, 5)
+                    if op == 'apply' and rng.random() < 0.5:
+                        st['inner'] = 'reshuffle'   # the apply function adds a random stage
                     sts = [st]
                 else:
                     sts = pargen.gen_upstream_stage(rng, a, 'u%d' % (j + 1), True)
